@@ -1,6 +1,6 @@
 import FlytModel.Generated.IR
 import FlytModel.Expected.IR
-/-! The translation of `NewErrorResult` from the CURRENT source is, term for term, the IR the refinement theorems are about. -/
+/-! The translation of `NewErrorResult` from the CURRENT source is, term for term, the expected IR. -/
 namespace Flyt.Tie
 theorem NewErrorResult : Flyt.Generated.IR.NewErrorResult = Flyt.Expected.IR.NewErrorResult := rfl
 end Flyt.Tie
